@@ -4,6 +4,7 @@ From JV Require Import Sem Gen Spec SpecX.
 From JV.Hand Require Import Iter Order Sys.
 From JV.Hand Require Import Names Text.
 From JV.Hand Require Import Lexopt Json Cli.
+From JV.Hand Require Import Interop.
 Require Extraction.
 Require Import ExtrOcamlBasic.
 Extraction Language OCaml.
@@ -27,6 +28,7 @@ Extraction "jv.ml"
   (* Hand/Names.v *) codes month_display weekday_display month_from_str weekday_from_str month_try_from_ty weekday_try_from_ty ity_lo ity_hi
   (* Hand/Text.v *) show_date show_date_alt parse_i32 parse_u32 parse_fields parse_date
   (* Hand/Cli.v (+ Lexopt.v, Json.v): the julian command *) cli_main_exec stdout_of
+  (* Hand/Interop.v *) via_foreign to_foreign from_foreign chrono_ymin chrono_ymax time_ymin time_ymax
   (* Spec.v / SpecX.v: the executable specification (oracle) *)
   cal_of date_of at_ymd_spec at_ordinal_date_spec year_count year_kind_of ykind_gen month_shape_spec shape_of month_count
   sh_len sh_in sh_nth sh_ord sh_first sh_last sh_natural sh_gap is_old lbl jlabel glabel ordinal_of day_ordinal_of
